@@ -103,6 +103,15 @@ fn check_il(c: &IlCase, p: &mut Probe) -> Check {
     let n = cc * rr;
     let il = Interleaver::new(cc, c.backward);
     let lay = c.layout;
+    // history: a caller's mistake first - a block whose length is not a multiple of the column count
+    // (the documented outcome is a panic; it is caught, as a supervisor of worker threads would, and
+    // ignored): the well-formed calls that follow on this object and in this process are unaffected
+    if cc >= 2 && c.salt & 0x18000 == 0x08000 {
+        let bad: Vec<u32> = (0..(n + 1) as u32).collect();
+        let _ = guarded(|| il.interleave(&Array1::from_vec(bad.clone())).to_vec());
+        let _ = guarded(|| il.deinterleave(&bad));
+        p.class("after-a-call-with-an-indivisible-length");
+    }
     if c.warm_rows > 0 && c.warm_rows != rr {
         // history: the object first processes a block of another length (both directions of use)
         let (r0, n0) = (c.warm_rows, cc * c.warm_rows);
@@ -131,7 +140,10 @@ fn check_il(c: &IlCase, p: &mut Probe) -> Check {
             ensure!(y[r * cc + k] == x[src], "permutation", "columns {cc}, rows {rr}, backward {}, input layout {}, earlier block rows {}: output[{}] should be input[{src}]", c.backward, layout_name(lay), c.warm_rows, r * cc + k);
         }
     }
-    let back = guarded(|| il.deinterleave(&y)).map_err(|e| Fail::new("panic", format!("deinterleave panicked: {e}")))?;
+    // one case in eight: the object built (and possibly used) on this thread deinterleaves on another one
+    let moved = c.salt & 0x7000 == 0x2000;
+    p.class_if(moved, "object-used-on-another-thread");
+    let back = guarded(|| if moved { crate::common::on_other_thread(|| il.deinterleave(&y)) } else { il.deinterleave(&y) }).map_err(|e| Fail::new("panic", format!("deinterleave panicked: {e}")))?;
     ensure!(back == x, "inverse", "deinterleave(interleave(x)) != x for columns {cc}, rows {rr}, backward {}", c.backward);
     let z = il.deinterleave(&x);
     ensure!(il.interleave(&Array1::from_vec(z)).to_vec() == x, "inverse", "interleave(deinterleave(y)) != y for columns {cc}, rows {rr}, backward {}", c.backward);
@@ -315,7 +327,7 @@ pub fn property() -> Property {
             }),
             Box::new(Sub {
                 name: "interleaver-random",
-                rule: "random shapes up to 64 x 64, one dimension in nineteen 65..=1100 (degenerate C = 1 / R = 1 weighted up; one case in 250 a block of 44 000 - 175 000 elements, 2/3/5 columns by 22 000 - 35 000 rows or transposed), both directions, random label salt, all six input layouts, 40 % of the cases on an object that first processed another block length; same oracle",
+                rule: "random shapes up to 64 x 64, one dimension in nineteen 65..=1100 (degenerate C = 1 / R = 1 weighted up; one case in 250 a block of 44 000 - 175 000 elements, 2/3/5 columns by 22 000 - 35 000 rows or transposed), both directions, random label salt, all six input layouts, 40 % of the cases on an object that first processed another block length, a quarter after calls with a length that is not a multiple of the column count (documented panic, caught and ignored); same oracle",
                 cases: |t| t.pick(50_000, 1_000_000),
                 strategy: il_strategy,
                 check: check_il,
